@@ -26,6 +26,7 @@ ASSUMPTIONS = [
 ]
 
 TABLES = 0x50000
+WIN = 0x00100000             # a small RAM behind the page-mapped window (VMSA configurations)
 TABLES_SZ = 0x8000
 
 
@@ -86,6 +87,12 @@ def _vmsa_tables(rng, dev, mode):
                 d = 0
             else:
                 d = rng.getrandbits(32)
+            G.set_data(dev, 0x1000 + 4 * i, d.to_bytes(4, 'little'))
+        # the first four pages of the window are identity-mapped onto a RAM that really sits at 0x00100000 (so programs can run there), with
+        # every memory-type selector: TEX[0]:C:B incl. the implementation-defined remap region 6, read-only / no-access variants
+        for i in range(4):
+            texcb = rng.choice([6, 6, 6, rng.randrange(8)])
+            d = (WIN + (i << 12)) | (texcb >> 2) << 6 | (texcb & 3) << 2 | rng.choice([3, 3, 3, 2, 1]) << 4 | rng.getrandbits(1) << 10 | 0b10
             G.set_data(dev, 0x1000 + 4 * i, d.to_bytes(4, 'little'))
         ss = 1 << 18 | rng.choice([3, 3, 1, 0]) << 10 | rng.getrandbits(1) << 15 | rng.getrandbits(1) << 4 | 0b10 | (rng.getrandbits(4) << 20 if rng.random() < 0.2 else 0)
         for i in range(16, 32):
@@ -205,7 +212,8 @@ def regime(rng, cfg, first=False):
     R = G.random_regfile(rng, cfg)
     if cfg['memory_system_architecture'] == 'VMSA' and rng.random() < 0.5:
         for _ in range(2):
-            R['R%dusr' % rng.randrange(8)] = rng.choice([0x00100000 + 0x1000 * rng.randrange(256), 0x01000000 + 0x10000 * rng.randrange(16)]) + rng.choice([0, 4, 0xFFC, 0xFFE, 0x3C0])
+            R['R%dusr' % rng.randrange(8)] = rng.choice([0x00100000 + 0x1000 * rng.randrange(256), WIN + 0x1000 * rng.randrange(4), WIN + 0x1000 * rng.randrange(4),
+                                                         0x01000000 + 0x10000 * rng.randrange(16)]) + rng.choice([0, 4, 0xFFC, 0xFFE, 0x3C0, 1, 2, 0x101])
     return {'cpsr': cpsr, 'sys': sys, 'R': R, 'spsr': G.random_spsrs(rng, cfg, valid=True),
             'elr_hyp': G.random_value(rng)}
 
@@ -217,11 +225,15 @@ def gen_case(item, rng, tier):
     if cfg['memory_system_architecture'] == 'VMSA':
         _vmsa_tables(rng, tables, rng.choice(['identity', 'identity', 'random']))
     devices.append(tables)
+    if cfg['memory_system_architecture'] == 'VMSA':
+        devices.append({'kind': 'ram', 'begin': WIN, 'end': WIN + 0x4000})
     # data page: random bytes so loads produce varied values (incl. words used as page-table descriptors)
     G.set_data(devices[2], 0x3C0, bytes(rng.getrandbits(8) for _ in range(0x80)))
     G.host_call_blocks(devices[2])
     reg0 = regime(rng, cfg, True)
     reg0['pc'] = CODE + 4 * rng.randrange(0, 64)
+    if cfg['memory_system_architecture'] == 'VMSA' and rng.random() < 0.25:
+        reg0['pc'] = WIN + 0x1000 * rng.randrange(4) + 4 * rng.randrange(0, 64)          # run from the page-mapped window
     core = {'config': cfg, 'devices': devices, 'regs': reg0, 'no_poke': [TABLES]}
     if item['k'] in ('sweepT32', 'sweepA32'):
         # keep memory reachable: MPU/MMU off, registers aimed at the data page
